@@ -45,6 +45,8 @@ harness!(fub_poll_budget_61, fub::budget(61));
 harness!(fub_poll_budget_3, fub::budget(3));
 harness!(fub_poll_budget_many, fub::budget_many());
 harness!(fub_push_c2, fub::step_push(&StepCfg { cap: 2, selfwakes: 0, mon: fub::M_ALL, env_budget: 0, inflight_ok: false, quiet: false, handles: false }));
+harness!(fub_push_c3, fub::step_push(&StepCfg { cap: 3, selfwakes: 0, mon: fub::M_ALL, env_budget: 0, inflight_ok: false, quiet: false, handles: false }));
+harness!(fub_wake_c3, fub::step_wake(&StepCfg { cap: 3, selfwakes: 0, mon: fub::M_ALL, env_budget: 0, inflight_ok: false, quiet: false, handles: false }));
 harness!(fub_push_c2_inflight, fub::step_push(&StepCfg { cap: 2, selfwakes: 0, mon: fub::M_ALL, env_budget: 0, inflight_ok: true, quiet: false, handles: false }));
 harness!(fub_push_c0, fub::step_push(&StepCfg { cap: 0, selfwakes: 0, mon: fub::M_ALL, env_budget: 0, inflight_ok: false, quiet: false, handles: false }));
 harness!(fub_wake_c2, fub::step_wake(&StepCfg { cap: 2, selfwakes: 0, mon: fub::M_ALL, env_budget: 0, inflight_ok: false, quiet: false, handles: false }));
@@ -87,6 +89,7 @@ harness!(fu_push_2, fu::step_push(&UCfg { caps: [2, 0, 0], n: 1, selfwakes: 0, q
 // FuturesOrderedBounded: symbolic 64-bit position counter (wrap + re-basing for every value)
 harness!(fob_poll_c2, fob::step_poll(&OCfg { cap: 2, max_parked: 1, selfwakes: 0 }));
 harness!(fob_poll_c2_p0, fob::step_poll(&OCfg { cap: 2, max_parked: 0, selfwakes: 0 }));
+harness!(fob_poll_c3, fob::step_poll(&OCfg { cap: 3, max_parked: 1, selfwakes: 0 }));
 harness!(fob_poll_c1_p2, fob::step_poll(&OCfg { cap: 1, max_parked: 2, selfwakes: 0 }));
 harness!(fob_poll_c2_p2, fob::step_poll(&OCfg { cap: 2, max_parked: 2, selfwakes: 1 }));
 harness!(fob_push_c2, fob::step_push(&OCfg { cap: 2, max_parked: 1, selfwakes: 0 }));
@@ -101,6 +104,7 @@ harness!(fo_poll_c2_hi, crate::fo::step_poll_out(&OCfg { cap: 2, max_parked: 1, 
 harness!(fo_observe_c2, crate::fo::step_observe_push(&OCfg { cap: 2, max_parked: 1, selfwakes: 0 }));
 // merges
 harness!(mb_poll_c2, mg::step_poll(&MCfg { cap: 2, selfwakes: 1, items: 1, quiet: false }));
+harness!(mb_poll_c3, mg::step_poll(&MCfg { cap: 3, selfwakes: 0, items: 1, quiet: false }));
 harness!(mb_poll_c2_quiet, mg::step_poll(&MCfg { cap: 2, selfwakes: 0, items: 1, quiet: true }));
 harness!(mu_poll_12_c0, mg::step_poll_unbounded(&MUCfg { caps: [1, 2], cursor: 0, selfwakes: 0, items: 1 }));
 harness!(mu_push_12, mg::step_push_unbounded(&MUCfg { caps: [1, 2], cursor: 0, selfwakes: 0, items: 0 }));
@@ -206,6 +210,10 @@ pub fn table() -> &'static [(&'static str, fn())] {
         ("fob_poll_c2", fob_poll_c2),
         ("fob_poll_c2_p2", fob_poll_c2_p2),
         ("fob_poll_c1_p2", fob_poll_c1_p2),
+        ("fob_poll_c3", fob_poll_c3),
+        ("mb_poll_c3", mb_poll_c3),
+        ("fub_push_c3", fub_push_c3),
+        ("fub_wake_c3", fub_wake_c3),
         ("fob_push_c2", fob_push_c2),
         ("fob_new", fob_new),
         ("fob_drop_c2", fob_drop_c2),
